@@ -33,7 +33,10 @@
     /repo commit bb88a29 (header read once more after that copy); /repo HEAD is
     [true true true], the three defects these commits repaired (F14, F15, F16)
     are the [..._refuted] theorems about [false false false], [true false
-    false], [true true false].  The post-PRAGMA decisions are the separate
+    false], [true true false].  Two more flags concern sessions (Close / Open /
+    kill): [freshrule] = 3b58009 and [reachrule] = c55c7c6 (F2, F18); the
+    snapshot steps carry their own variants as label arguments ([LsSnapPos
+    guard] = 5f481c7, [LsSnapRead chk] = 482a715 + a637c7e; F9b, F19).  The post-PRAGMA decisions are the separate
     functions [mid_restarted], [needs_post], [post_rb] and [ck_decide], which
     Db/MachineEntry.v exposes for trace conformance with db.go.
 
@@ -68,6 +71,11 @@ Variable recheck : bool.
     current open session, a changed header salt means snapshot);
     [freshrule = false]: without it. *)
 Variable freshrule : bool.
+(** [reachrule = true]: /repo commit c55c7c6 (the fresh-session rule applies until a
+    sync of the session has reached the end of the WAL file, sticky flag
+    reachedWALEnd); [reachrule = false]: the rule of 3b58009 (until something has
+    been synced, lastSyncedWALOffset = 0).  /repo HEAD is [true] for all five. *)
+Variable reachrule : bool.
 
 Definition tx : Type := list (frame data).
 Definition flen (ts : list tx) : nat := length (concat ts).
@@ -112,10 +120,12 @@ Record sess := mkSess {
   s_end : bool;        (* syncedToWALEnd *)
   s_off : nat;         (* lastSyncedWALOffset as a frame count; 0 = nothing synced in this session *)
   s_openmark : bool;   (* ghost: the read mark now held was taken by Open over existing level-0 files *)
-  s_snap : option (nat * nat * nat * nat) }.
+  s_snap : option (nat * nat * nat * nat);
                        (* a snapshot in progress (chkMu read-locked): advertised position
                           (number of level-0 files), walEndOffset as a frame count, and two
-                          ghosts: transactions replicated at that position, generation then *)
+                          transactions replicated at that position (ghost) and the generation
+                          then (a637c7e: the salts of the WAL the bound was measured in) *)
+  s_reached : bool }.  (* reachedWALEnd: a sync of this session ended exactly at the end of the -wal file *)
 
 Record state := mkSt {
   (* SQLite / file system *)
@@ -145,6 +155,7 @@ Definition flag (s : state) : bool := s_end (ss s).
 Definition lastoff (s : state) : nat := s_off (ss s).
 Definition openmark (s : state) : bool := s_openmark (ss s).
 Definition snap (s : state) : option (nat * nat * nat * nat) := s_snap (ss s).
+Definition reached (s : state) : bool := s_reached (ss s).
 
 Definition committed (s : state) : image data := view data (base s, bsize s) (concat (txs s)).
 (** the database file as litestream reads it *)
@@ -230,13 +241,13 @@ Definition set_opened (s : state) : state :=
 Definition set_ss (s : state) (x : sess) : state :=
   mkSt (base s) (bsize s) (gen s) (txs s) (backfilled s) (fsize s) (phys s) (ls_mark s) (wlock s)
        (opened s) (l0 s) (cgen s) (cfo s) (cprev s) x (pc s) (cur s) (acks s) (snaps s).
-Definition set_flag (s : state) (b : bool) : state := set_ss s (mkSess b (lastoff s) (openmark s) (snap s)).
-Definition set_openmark (s : state) (b : bool) : state := set_ss s (mkSess (flag s) (lastoff s) b (snap s)).
+Definition set_flag (s : state) (b : bool) : state := set_ss s (mkSess b (lastoff s) (openmark s) (snap s) (reached s)).
+Definition set_openmark (s : state) (b : bool) : state := set_ss s (mkSess (flag s) (lastoff s) b (snap s) (reached s)).
 Definition set_snap (s : state) (x : option (nat * nat * nat * nat)) : state :=
-  set_ss s (mkSess (flag s) (lastoff s) (openmark s) x).
+  set_ss s (mkSess (flag s) (lastoff s) (openmark s) x (reached s)).
 Definition set_closed (s : state) : state :=
   mkSt (base s) (bsize s) (gen s) (txs s) (backfilled s) (fsize s) (phys s) None false
-       false (l0 s) (cgen s) (cfo s) (cprev s) (mkSess false 0 false None) Idle (cur s) (acks s) (snaps s).
+       false (l0 s) (cgen s) (cfo s) (cprev s) (mkSess false 0 false None false) Idle (cur s) (acks s) (snaps s).
 (** walCheckpoint: pages of frames up to [j] copied into the database file *)
 Definition set_backfill (s : state) (j : nat) (sz : N) : state :=
   mkSt (base s) (bsize s) (gen s) (txs s) j sz (phys s) (ls_mark s) (wlock s)
@@ -302,7 +313,7 @@ Definition verify (s : state) : vans :=
         if negb (g =? cgen s) then VSnap                     (* lastPageMatch: salts differ *)
         else if negb saltMatch then
           (* 3b58009: nothing synced yet in this session: "wal restarted while not replicating" *)
-          (if freshrule && (lastoff s =? 0) then VSnap
+          (if freshrule && (if reachrule then negb (reached s) else lastoff s =? 0) then VSnap
            else if detect_full (phys s) (gen s) (cgen s) then VSnap else VIncrHdr false)
         else VIncrAt
     end
@@ -326,7 +337,8 @@ Definition write_file (s : state) (x : ltx data) (newcfo : nat) (c : curT) : sta
        (opened s) (l0 s ++ [x]) (gen s) newcfo (x_commit data x)
        (mkSess (newcfo =? length (phys s))   (* syncedToWALEnd = (finalOffset = walSize) *)
                newcfo                         (* lastSyncedWALOffset = finalOffset *)
-               (openmark s) (snap s))
+               (openmark s) (snap s)
+               (reached s || (newcfo =? length (phys s))))
        (pc s) c (acks s) (snaps s).
 
 (** writeLTXFromDB over the whole live generation *)
@@ -447,7 +459,10 @@ Inductive label :=
 | LsKill
 | LsSnapPos (guard : bool)   (* snapshotPosition under the executor; [guard = false]: snapshotWALEndOffset
                                 before it compared the salts of the last level-0 file with the WAL header *)
-| LsSnapRead                 (* snapshotReader's goroutine: database file + WAL up to walEndOffset *)
+| LsSnapRead (chk : bool)    (* snapshotReader's goroutine: database file + WAL up to walEndOffset;
+                                [chk = true]: 482a715 + a637c7e, the read fails when the WAL it opens,
+                                or the WAL at the end of the read, is not the generation the bound was
+                                measured in; [chk = false]: before those commits *)
 | LsBumpFail.                (* the one error exit modelled: bumpLitestreamSeq fails (SQLITE_BUSY), the
                                 checkpoint call returns, the executor's state is applied as it is *)
 
@@ -585,10 +600,13 @@ Definition step (s : state) (l : label) : option state :=
           else None
       | _, _, _ => None
       end
-  | LsSnapRead =>
+  | LsSnapRead chk =>
       match snap s, phys s with
-      | Some (p, we, _, _), _ :: _ =>
+      | Some (p, we, _, sg), _ :: _ =>
           if opened s then
+            if chk && (0 <? we) && negb (sg =? gen s)
+            then Some (set_snap s None)       (* "wal restarted before snapshot": no snapshot is produced *)
+            else
             match snap_idx (txs s) we with
             | Some c =>
                 Some (add_snap (set_snap s None)
@@ -608,15 +626,16 @@ Definition step (s : state) (l : label) : option state :=
 (** snapshot_matches_position needs three facts the code does not establish by
     itself; each is a side condition here and a refuted lemma when dropped:
     the advertised position lies in the live WAL generation and is not lost
-    ([LsSnapPos]); no WAL restart between capturing the position and reading
-    ([LsSnapRead], first conjunct); the database file has not been backfilled
-    beyond the position ([LsSnapRead], second conjunct - F9). *)
+    ([LsSnapPos]); the database file has not been backfilled beyond the
+    position ([LsSnapRead], second conjunct - F9); and, only for the reader
+    before commits 482a715 / a637c7e ([chk = false]), no WAL restart between
+    capturing the position and reading ([LsSnapRead], first conjunct). *)
 Definition snap_ok (s : state) (l : label) : bool :=
   match l with
   | LsSnapPos _ => match cur s with AtLive _ => true | _ => false end
-  | LsSnapRead =>
+  | LsSnapRead chk =>
       match snap s with
-      | Some (_, _, sc, sg) => (sg =? gen s) && (backfilled s <=? sc)
+      | Some (_, _, sc, sg) => (chk || (sg =? gen s)) && (backfilled s <=? sc)
       | None => true
       end
   | _ => true
@@ -644,7 +663,10 @@ Definition idleish (p : pcT) : bool := match p with Idle | PHdr _ _ => true | _ 
     in budgeted chunks: it has synced something ([lastoff > 0], the fresh-session
     rule no longer applies) but its cursor is not at the end of the live
     generation, and its mark 0 does not keep a commit from restarting the WAL
-    over the frames it has not copied yet. *)
+    over the frames it has not copied yet.  Only the fresh-session rule of
+    3b58009 ([reachrule = false]) has this window; with the sticky
+    reachedWALEnd flag of c55c7c6 the session stays "fresh" until it has reached
+    the end of the WAL. *)
 Definition catching_up (s : state) : bool :=
   openmark s && idleish (pc s) && (0 <? lastoff s) && (0 <? length (txs s)) &&
   negb ((cgen s =? gen s) && (cfo s =? flen (txs s))).
@@ -662,7 +684,7 @@ Definition kill_ok (s : state) : bool :=
 Definition window_ok (s : state) (l : label) : bool :=
   match l with
   | AppCommit _ true | AppTruncate =>
-      (recheck || negb (post_pending (pc s))) && negb (catching_up s)
+      (recheck || negb (post_pending (pc s))) && (reachrule || negb (catching_up s))
   | LsKill => kill_ok s
   | LsBumpFail => false     (* error exits are outside the C01 / C04 theorems *)
   | _ => true
@@ -698,7 +720,7 @@ Definition init_ok (s : state) : Prop :=
   backfilled s <= length (txs s) /\ flen (txs s) <= length (phys s) /\
   (txs s = [] -> phys s = []) /\
   ls_mark s = None /\ wlock s = false /\ opened s = false /\ l0 s = [] /\
-  pc s = Idle /\ acks s = [] /\ cur s = Lost /\ ss s = mkSess false 0 false None /\
+  pc s = Idle /\ acks s = [] /\ cur s = Lost /\ ss s = mkSess false 0 false None false /\
   cgen s <= gen s /\ snaps s = [].
 
 Definition mode_pt (m : mode) : bool := match m with Passive | Truncate => true | _ => false end.
